@@ -160,6 +160,38 @@ func nastyAlphabet(cfg histCfg, w *World) []histAnswer {
 			})
 		}
 	}
+	// (6) Get SDR replies shaped like records: every header type/length the walk
+	// branches on, and record bodies of every length with every kind of ID string
+	isGetSDR := func(rx *ref.Rx) bool { return rx.Msg != nil && rx.Msg.NetFn == 0x0a && rx.Msg.Cmd == 0x23 }
+	for _, typ := range []byte{0x01, 0x02, 0x11, 0xC0, 0x00, 0xFF} {
+		for _, l := range []byte{0, 1, 5, 42, 43, 44, 48, 59, 63, 64, 65, 255} {
+			typ, l := typ, l
+			add(fmt.Sprintf("sdr/header/type=%02x/len=%d", typ, l), func(t *env.Transport, rx *ref.Rx) []byte {
+				if !isGetSDR(rx) || rx.Fields["off"] != 0 {
+					return nil
+				}
+				return t.BMC.Respond(rx, 0, []byte{0xFF, 0xFF, 0x01, 0x00, 0x51, typ, l})
+			})
+		}
+	}
+	for n := 0; n <= 66; n++ {
+		for _, tl := range []byte{0x00, 0x1F, 0x41, 0x5F, 0x80, 0x9F, 0xC0, 0xC1, 0xDF, 0xFF} {
+			if n < 43 && tl != 0xC0 {
+				continue
+			}
+			n, tl := n, tl
+			add(fmt.Sprintf("sdr/body/len=%d/typelen=%02x", n, tl), func(t *env.Transport, rx *ref.Rx) []byte {
+				if !isGetSDR(rx) || rx.Fields["off"] == 0 {
+					return nil
+				}
+				body := pattern(n, 0x11, 3)
+				if n > 42 {
+					body[42] = tl
+				}
+				return t.BMC.Respond(rx, 0, append([]byte{0xFF, 0xFF}, body...))
+			})
+		}
+	}
 	// (5) wrapper-level: length field beyond the data, OEM payload type, v1.5 wrapper, bare RMCP
 	for i, raw := range [][]byte{
 		{0x06, 0x00, 0xFF, 0x07},
